@@ -789,10 +789,12 @@ class CSSStyleSheet(css_parser.stylesheets.StyleSheet):
                 for r in self._cssRules[index:]:
                     if r.type in (r.CHARSET_RULE,
                                   r.IMPORT_RULE,
-                                  r.NAMESPACE_RULE):
+                                  r.NAMESPACE_RULE,
+                                  r.VARIABLES_RULE):
                         self._log.error(
                             'CSSStylesheet: Cannot insert rule here, found '
-                            '@charset, @import or @namespace before index %s.'
+                            '@charset, @import, @namespace or @variables '
+                            'after index %s.'
                             % index, error=xml.dom.HierarchyRequestErr)
                         return
                 self._cssRules.insert(index, rule)
